@@ -12,6 +12,7 @@
   All theorems hold for every table (any number of aliases, any values, any cycles) and every line.
 -/
 import YashModel.Alias.Lemmas
+import YashModel.Alias.Refine
 namespace YashModel.Alias
 
 /-! ## ★ subst_terminates -/
@@ -294,5 +295,44 @@ example : substText [⟨"i", "if".toList, false⟩, ⟨"a", "x".toList, false⟩
 /-- non-vacuity: global aliases are replaced in any position, including a redirection operand. -/
 example : substText [⟨"g", "z".toList, true⟩, ⟨"a", "x".toList, false⟩] "a g a > g".toList
     = "x z a > z".toList := by decide +kernel
+
+/-! ## ☆ Model = Spec (partial) -/
+
+/- Full statement (NOT proved):
+     theorem model_eq_spec (T : Table) (line : List Char) : substText T line = substLine T line
+   i.e. the origin-chain buffer of the implementation and the by-hand region-stack Spec produce the same
+   text for every table and line.  What is proved is the lock-step simulation: the two runs stay on the same
+   text, grammar position and token sequence as long as they choose the same alias for every word
+   (`Agree`: `mcand = hcand` at every step).  What is missing is that `Agree` always holds, i.e.
+   (i) "the name is on the origin chain of the token's first character" ⇔ "a region of that name contains the
+   token's first character", and (ii) `is_after_blank_ending_alias` (walk back over the consumed buffer) ⇔ the
+   Spec's forward flag `tb`.  Both are checked on every generated case by the differential run (Spec column),
+   and per instance by the kernel through `model_eq_spec_checked`. -/
+
+/-- ☆ (partial) If model and Spec choose the same alias at every step, the substituted texts are equal. -/
+theorem model_eq_spec_partial (T : Table) (line : List Char)
+    (hA : Agree T (fuelFor T line) (init line) { rest := line }) :
+    substText T line = substLine T line := by
+  have hs : Sim (init line) ({ rest := line } : HState) := by
+    refine ⟨?_, rfl, rfl, rfl⟩
+    simp only [init, plain, chars, List.map_map]
+    exact (List.map_id' _).symm
+  obtain ⟨hr, ho, _, _⟩ := sim_run (fuelFor T line) hs hA
+  unfold substText substState substLine substHand MState.text
+  simp only [hr, ho, chars, List.map_append, List.map_reverse]
+
+/-- ☆ (partial) Per-instance certificate: the executable lock-step check `agreeB` suffices. -/
+theorem model_eq_spec_checked (T : Table) (line : List Char)
+    (hb : agreeB T (fuelFor T line) (init line) { rest := line } = true) :
+    substText T line = substLine T line :=
+  model_eq_spec_partial T line (agree_of_agreeB _ hb)
+
+/-- non-vacuity: the hypothesis holds on a table with a cycle, blank-ending values, a quoted final blank and
+    a non-ASCII value (byte length ≠ character length). -/
+example : agreeB [⟨"a", "b ".toList, false⟩, ⟨"b", "c é ".toList, false⟩, ⟨"c", "a x\\ ".toList, false⟩,
+      ⟨"g", "z".toList, true⟩]
+    (fuelFor [⟨"a", "b ".toList, false⟩, ⟨"b", "c é ".toList, false⟩, ⟨"c", "a x\\ ".toList, false⟩,
+      ⟨"g", "z".toList, true⟩] "a b \\\n c g; x a".toList)
+    (init "a b \\\n c g; x a".toList) { rest := "a b \\\n c g; x a".toList } = true := by decide +kernel
 
 end YashModel.Alias
